@@ -208,13 +208,14 @@ static void wl_array_reserve(struct ctx *c)
 	if (json_object_put(a) != 1) bad(c, "array-refcount");
 }
 /* a string token in which an escape (or the end of a plain run) lands after exactly L plain characters: every growth point of the tokener's scratch buffer
- * is crossed by every kind of append.  param = kind*512 + L; kind 0 \u20ac, 1 \n, 2 surrogate pair, 3 plain run only, 4 the same as a member NAME with \u00e9 */
+ * is crossed by every kind of append.  param = kind*512 + L; kind 0 \u20ac, 1 \n, 2 surrogate pair, 3 plain run only, 4 the same as a member NAME with \u00e9, 5-8 unpaired surrogates */
 static void wl_parse_token_boundary(struct ctx *c)
 {
 	int kind = c->param / 512, L = c->param % 512, i; struct obuf d = {0}; struct json_tokener *tok = json_tokener_new(); struct json_object *o; enum json_tokener_error e;
 	ob_puts(&d, kind == 4 ? "{\"" : "[\"");
 	for (i = 0; i < L; i++) ob_putc(&d, (char)('a' + i % 26));
-	ob_puts(&d, kind == 0 ? "\\u20ac" : kind == 1 ? "\\n" : kind == 2 ? "\\ud83d\\ude00" : kind == 4 ? "\\u00e9" : "");
+	ob_puts(&d, kind == 0 ? "\\u20ac" : kind == 1 ? "\\n" : kind == 2 ? "\\ud83d\\ude00" : kind == 4 ? "\\u00e9" :
+	            kind == 5 ? "\\ud83dx" : kind == 6 ? "\\ud83d\\n" : kind == 7 ? "\\ud83d\\u0041" : kind == 8 ? "\\ude00" : "");   /* 5-8: unpaired surrogates (each becomes U+FFFD) in front of a plain character, a short escape, a non-surrogate escape; a lone low one */
 	ob_puts(&d, kind == 4 ? "tail\":[1]}" : "tail\"]");
 	ARM(c); o = json_tokener_parse_ex(tok, d.b, (int)d.n + 1); DISARM(c);
 	e = json_tokener_get_error(tok);
@@ -547,7 +548,7 @@ static void wl_pointer_grow(struct ctx *c)
 }
 
 struct workload { const char *name; void (*fn)(struct ctx *); int param; const char *cat; };
-#define MAXW 3200
+#define MAXW 3800
 static struct workload W[MAXW]; static int NW;
 static void addw(const char *name, void (*fn)(struct ctx *), int param, const char *cat)
 {
@@ -578,7 +579,7 @@ static void build_table(void)
 	for (i = 0; i < 3; i++) addw("big", wl_big_inputs, i, i == 2 ? "patch" : i == 1 ? "fd" : "parse");
 	addw("lh_table", wl_lh_table, 0, "table"); addw("lh_table", wl_lh_table, 16, "table");
 	{ static const int ns[] = {0, 5, 31, 32, 33, 64}; int j; for (i = 0; i < 6; i++) for (j = 0; j < 4; j++) addw("array_reserve", wl_array_reserve, ns[i] * 4 + j, "add"); }
-	{ int k, L; for (k = 0; k < 5; k++) for (L = 0; L <= 260; L += (L < 70 || (L >= 120 && L < 135) || (L >= 250)) ? 1 : 5) addw("parse_token_boundary", wl_parse_token_boundary, k * 512 + L, "parse"); }
+	{ int k, L; for (k = 0; k < 9; k++) for (L = 0; L <= 260; L += (L < 70 || (L >= 120 && L < 135) || (L >= 250)) ? 1 : 5) addw("parse_token_boundary", wl_parse_token_boundary, k * 512 + L, "parse"); }
 	{ static const int ps[] = {0 * 4 + 0, 5 * 4 + 0, 5 * 4 + 1, 5 * 4 + 2, 5 * 4 + 3, 6 * 4 + 1, 9 * 4 + 2}; for (i = 0; i < 7; i++) addw("parse_comma_locale", wl_parse_locale, ps[i], "parse"); }
 	{ static const int ms[] = {0, 9, 10, 11, 12, 21, 22, 23, 43, 44}; int j; for (i = 0; i < 10; i++) for (j = 0; j < 2; j++) addw("pointer_grow", wl_pointer_grow, ms[i] * 2 + j, j ? "patch" : "pointer"); }
 	for (i = 0; i < 48 * 24; i++) addw("serialize_boundary", wl_serialize_boundary, i, "serialize");
